@@ -152,6 +152,16 @@ CLAIMS = {
    note=COMMON_NOTE + NUM_NOTE + "PARTIAL: feature builds are compiled artefacts compared differentially. Cases whose parameters the default "
         "build rejects (e.g. WSMA > 127) are outside 'parameters that fit the default type' and skipped in the cross-build comparison.",
    ref="DESIGN.md §5 C20"),
+
+ "C15": dict(cat="proof", tech="Lean 4 algebraic proofs on the weight-profile specs (affine, superposition, hull) + metamorphic differential run on the real code",
+   text="Theorems in every ordered field, for every length, construction value and stream: SMA, WMA and the exponential recurrence "
+        "(EMA/RMA/WSMA; DMA, TMA as compositions) commute with affine maps of either sign, satisfy superposition, stay in the hull of "
+        "the values given (the smoothing constants are proved to lie in (0,1]), reproduce constants, and WMA's impulse response is the "
+        "documented 2(n-age)/(n(n+1)). All 15 MA kinds plus Conv and VWMA are checked on the real code by metamorphic relations "
+        "(x vs a*x+b, x,y vs x+y, hull incl. flat/scale-jump regimes, impulse responses) and against their weight-profile specs.",
+   note=COMMON_NOTE + NUM_NOTE + "PARTIAL: SWMA, TRIMA, HMA, LinReg, SMM, Vidya, VWMA, Conv have the laws checked metamorphically and via "
+        "spec comparison only. Known finding: Vidya leaves the hull (residue).",
+   ref="DESIGN.md §5 C15"),
 }
 
 checks = []
